@@ -184,11 +184,72 @@ func c15r3(c *Ctx) {
 	if f := c.fn(R, "store.KeyInfo.Prepare"); f != nil {
 		info := f.Info()
 		// range over KeyPath[:Conf.TreeDepth]; BucketID <<= 4; BucketID += v
-		var rng *ast.RangeStmt
+		// the loop: `for _, v := range KeyPath[:TreeDepth]`, or the indexed spelling
+		// `for i := 0; i < len(KeyPath[:TreeDepth]) (or < TreeDepth); i++` reading KeyPath[…][i]
+		var rng ast.Node
+		var loopBody *ast.BlockStmt
+		isDigit := func(e ast.Expr) bool { return false }
+		isPrefix := func(e ast.Expr) bool {
+			se, ok := prog.Unparen(e).(*ast.SliceExpr)
+			return ok && prog.IsField(info, "store.KeyPos.KeyPath")(prog.Unparen(se.X)) && se.Low == nil && se.High != nil && prog.MentionsField(info, se.High, "store.HtreeDerivedConfig.TreeDepth")
+		}
 		ast.Inspect(f.Decl.Body, func(x ast.Node) bool {
-			if r, ok := x.(*ast.RangeStmt); ok {
-				if se, ok := prog.Unparen(r.X).(*ast.SliceExpr); ok && prog.IsField(info, "store.KeyPos.KeyPath")(prog.Unparen(se.X)) && se.Low == nil && se.High != nil && prog.MentionsField(info, se.High, "store.HtreeDerivedConfig.TreeDepth") {
-					rng = r
+			switch r := x.(type) {
+			case *ast.RangeStmt:
+				if isPrefix(r.X) && r.Value != nil {
+					rng, loopBody = r, r.Body
+					vObj := prog.ObjOf(info, r.Value)
+					isDigit = func(e ast.Expr) bool { return vObj != nil && prog.ObjOf(info, prog.Unparen(e)) == vObj }
+				}
+			case *ast.ForStmt:
+				as, okI := r.Init.(*ast.AssignStmt)
+				be, okC := prog.Unparen(r.Cond).(*ast.BinaryExpr)
+				if r.Init == nil || r.Cond == nil || r.Post == nil || !okI || !okC || len(as.Lhs) != 1 || len(as.Rhs) != 1 {
+					return true
+				}
+				iObj := prog.ObjOf(info, as.Lhs[0])
+				if v, isC := prog.ConstInt(info, as.Rhs[0]); !isC || v != 0 || iObj == nil {
+					return true
+				}
+				if px, ptok, okP := prog.IncDecOf(info, r.Post); !okP || ptok != token.INC || prog.ObjOf(info, px) != iObj {
+					return true
+				}
+				if be.Op != token.LSS || prog.ObjOf(info, prog.Unparen(be.X)) != iObj {
+					return true
+				}
+				bound := prog.Unparen(prog.StripConv(info, be.Y))
+				okBound := prog.IsField(info, "store.HtreeDerivedConfig.TreeDepth")(bound)
+				if ce, isCall := bound.(*ast.CallExpr); isCall && prog.CalleeKey(info, ce) == "builtin.len" && len(ce.Args) == 1 {
+					if isPrefix(ce.Args[0]) {
+						okBound = true
+					} else if srcs := f.SourcesAt(ce.Args[0], r); len(srcs) > 0 {
+						okBound = true
+						for _, src := range srcs {
+							if src.Expr == nil || !isPrefix(src.Expr) {
+								okBound = false
+							}
+						}
+					}
+				}
+				if !okBound {
+					return true
+				}
+				rng, loopBody = r, r.Body
+				isDigit = func(e ast.Expr) bool {
+					ie, ok := prog.Unparen(e).(*ast.IndexExpr)
+					if !ok || prog.ObjOf(info, prog.Unparen(ie.Index)) != iObj {
+						return false
+					}
+					b := prog.Unparen(ie.X)
+					if isPrefix(b) || prog.IsField(info, "store.KeyPos.KeyPath")(b) {
+						return true
+					}
+					for _, src := range f.SourcesAt(b, ie) {
+						if src.Expr == nil || !(isPrefix(src.Expr) || prog.IsField(info, "store.KeyPos.KeyPath")(prog.Unparen(src.Expr))) {
+							return false
+						}
+					}
+					return len(f.SourcesAt(b, ie)) > 0
 				}
 			}
 			return true
@@ -199,7 +260,7 @@ func c15r3(c *Ctx) {
 			shl, add := false, false
 			order := true
 			var shlPos, addPos ast.Node
-			ast.Inspect(rng.Body, func(x ast.Node) bool {
+			ast.Inspect(loopBody, func(x ast.Node) bool {
 				if as, ok := x.(*ast.AssignStmt); ok && len(as.Lhs) == 1 && prog.IsField(info, "store.KeyPos.BucketID")(as.Lhs[0]) {
 					switch as.Tok {
 					case token.SHL_ASSIGN:
@@ -207,13 +268,13 @@ func c15r3(c *Ctx) {
 							shl, shlPos = true, as
 						}
 					case token.ADD_ASSIGN, token.OR_ASSIGN:
-						if prog.ObjOf(info, as.Rhs[0]) == prog.ObjOf(info, rng.Value) {
+						if isDigit(as.Rhs[0]) {
 							add, addPos = true, as
 						}
 					case token.ASSIGN:
 						// BucketID = BucketID<<4 + v  or  BucketID*16 + v
 						s := prog.Unparen(as.Rhs[0])
-						if be, ok := s.(*ast.BinaryExpr); ok && (be.Op == token.ADD || be.Op == token.OR) && prog.Mentions(info, be, prog.ObjOf(info, rng.Value)) {
+						if be, ok := s.(*ast.BinaryExpr); ok && (be.Op == token.ADD || be.Op == token.OR) && (isDigit(be.X) || isDigit(be.Y)) {
 							shl, add, shlPos, addPos = true, true, as, as
 						}
 					}
